@@ -79,14 +79,27 @@ def run(cmd, timeout=600, cwd=None, env=None, input=None, check=False):
 # --------------------------------------------------------------------------
 # step 1: translator
 
+LAST_FALLBACKS = []
+
+
 def sync_gen():
-    """Regenerate coq/Gen/*.v from REPO. Returns list of error strings."""
+    """Regenerate coq/Gen/*.v from REPO. Returns list of error strings (hard errors only).
+    Modules that could not read the source and fell back to their pinned output are left in
+    LAST_FALLBACKS as (module, reason, [Gen files installed from the pin])."""
+    global LAST_FALLBACKS
     with Lock("gen"):
         rc, out, err = run([sys.executable, os.path.join(VERIF, "tools", "extract_consts.py"), REPO],
                            timeout=120)
+    LAST_FALLBACKS = []
+    for l in (out + err).splitlines():
+        if l.startswith("TRANSLATOR-FALLBACK "):
+            mod, _, why = l[len("TRANSLATOR-FALLBACK "):].partition(": ")
+            d = os.path.join(VERIF, "gen_pinned", mod)
+            files = sorted(f for f in os.listdir(d) if f.endswith(".v")) if os.path.isdir(d) else []
+            LAST_FALLBACKS.append((mod, why, files))
     errs = []
     if rc != 0:
-        errs = [l for l in (out + err).splitlines() if l.strip()][-20:] or ["translator failed"]
+        errs = [l for l in (out + err).splitlines() if l.startswith("TRANSLATOR-ERROR")][-20:] or ["translator failed"]
     return errs
 
 
